@@ -2,19 +2,28 @@
 import json
 
 ID = "C09"
-HARNESS_TEST = "TestC09|TestC09Routes|TestC09Sims"
+HARNESS_TEST = "TestC09|TestC09Routes|TestC09Sims|TestC09Inflight"
 GEN = "c09"
 COQ_MODEL = ["C09/Check.v", "C09/Sites.v", "Gen/C09Facts.v"]
-COQ_PROOF_DEPS = ["C09/Proofs.v"]
+COQ_PROOF_DEPS = ["C09/Proofs.v", "C09/ProofsBuf.v"]
 COQ_OBLIG = ["C09/Property.v", "Gen/C09Oblig.v"]
-CASES_HEADER = "Require Import Nib.C09.Model Nib.C09.Spec Nib.C09.Sites Nib.C09.Check Nib.Gen.C09Facts."
+CASES_HEADER = "From Coq Require Import String. Require Import Nib.C09.Model Nib.C09.ModelBuf Nib.C09.Spec Nib.C09.Sites Nib.C09.Check Nib.Gen.C09Facts. Local Open Scope string_scope."
 CASE_TYPE = "anycase"
 # the model the implementation is compared with follows the regenerated inventory of pointer sites:
 # Isolated (the code as it is since fix 509f604) when every access to Keeper.Bank.StateDB is guarded against
 # check-state contexts, Shared (the faithful model of the unguarded code) otherwise
-MISMATCH_FN = "mismatch_any (mode_of ptr_sites)"
+# … and the regenerated inventory of writes into shared byte slices + how those slices are materialised: Exact (every append
+# to a package-level slice reallocates because the slice was allocated with cap = len) or Spare
+MISMATCH_FN = "mismatch_any (mode_of ptr_sites) (alloc_of buffer_sites slice_origins) (appended_bases buffer_sites)"
 VIOLATES_FN = "violates_any"
-RULE = ("three drivers. (3) sims: a dependency chain of Cosmos messages of one signer (bank send, tokenfactory create/mint/burn/change-admin, evm "
+RULE = ("four drivers. (4) inflight: block B delivers txs of one signer made of evm.MsgCreateFunToken(from one of 3 bank coins with distinct "
+        "name/symbol/decimals, or from the signer's token-factory denom) / MsgConvertCoinToEvm / tokenfactory msgs / an EVM contract "
+        "creation with constructor arguments, while txs of the SAME kinds of a second signer over OTHER coins / arguments are "
+        "SIMULATED (baseapp.Simulate) INSIDE each DeliverTx, at store-read yield points given by the node's store tracer "
+        "(--trace-store writer): at every traced read (dense), every n-th read from an offset, or a single read; compared with "
+        "the replica that serves nothing: every DeliverTx response, every app hash, name/symbol/decimals of every ERC20 created "
+        "for a bank coin; non-trivial = at least one simulation succeeded inside a DeliverTx that returned code 0; first record "
+        "= spare capacity (cap-len) of every package-level byte slice shared by both paths. (3) sims: a dependency chain of Cosmos messages of one signer (bank send, tokenfactory create/mint/burn/change-admin, evm "
         "CreateFunToken(from coin) / ConvertCoinToEvm) over 3 denoms; multi- and single-message txs made of chain messages are SIMULATED "
         "(baseapp.Simulate, never committed) after Commit of block A or inside block B, while sub-sequences of the chain are delivered in "
         "blocks A and B; compared: every DeliverTx response and app hash; non-trivial = a multi-message simulation succeeded and block B "
@@ -33,6 +42,10 @@ RULE = ("three drivers. (3) sims: a dependency chain of Cosmos messages of one s
 ASSUMPTIONS = [
     "requests are injected inline at yield points of the delivering goroutine (a test precompile registered through "
     "Keeper.AddPrecompiles); schedules in which a request is pre-empted half-way are covered by the model only",
+    "inside Cosmos-message DeliverTx calls the yield points are the traced store reads of the node's store tracer (--trace-store "
+    "writer); a request runs to completion at a yield point",
+    "shared byte slices: which library allocators return cap = len is a reviewed list (Sites.exact_allocators), cross-checked on "
+    "every run by observing cap-len of every embedded byte code; a shared slice handed to a callee that writes into it is not recognised",
     "gas used by the in-flight tx and by simulated txs is read from the implementation (oracle values), not modelled",
     "the two replicas start from identical genesis bytes and deterministic keys; app-hash equality stands for equality of all committed state",
 ]
@@ -83,7 +96,46 @@ def _is_sims(rec):
     return isinstance(rec.get("input"), dict) and rec["input"].get("driver") == "sims"
 
 
+def _is_infl(rec):
+    return isinstance(rec.get("input"), dict) and rec["input"].get("driver") == "inflight"
+
+
+def _is_slices(rec):
+    return isinstance(rec.get("input"), dict) and rec["input"].get("driver") == "slices"
+
+
+def _payload(m, signer):
+    """metadata id of the coin whose ERC20 a MsgCreateFunToken deploys (0 is the model's 'no buffer' value)"""
+    return m["key"] + 1 if 0 <= m["key"] < 3 else 10 + signer
+
+
+def _infl_payloads(rec):
+    i, o = rec["input"], rec["obs"]
+    codes = o["codes"]
+    npre = len(i["pre"])
+    exact = len(codes) == npre + len(i["deliver"])
+    dl = []
+    for n, tx in enumerate(i["deliver"]):
+        if exact and codes[npre + n] != 0:
+            continue
+        dl += [_payload(m, 0) for m in tx if m["kind"] == "ft_create"]
+    sl = [_payload(m, 1) for tx in i["sims"] for m in tx if m["kind"] == "ft_create"]
+    return dl, sl
+
+
+def _nl(xs):
+    return "[" + "; ".join("%d%%nat" % x for x in xs) + "]"
+
+
 def to_coq_case(rec):
+    if _is_slices(rec):
+        return "(CSlices [%s])" % "; ".join('("%s", %d%%nat)' % (e["name"], e["spare"]) for e in rec["obs"].get("slices") or [])
+    if _is_infl(rec):
+        o = rec["obs"]
+        dl, sl = _infl_payloads(rec)
+        dense = o["dense"] and o["sim_err"] == 0 and o["sim_ok"] > 0
+        return "(CInfl (mkInfl %s %s %s (mkRoute %s %s %s)))" % (
+            _b(dense), _nl(dl), _nl(sl), _b(o["hash_eq"]), _b(o["results_eq"] and o["meta_eq"] and not o.get("panic") and not o.get("blocked")), _b(o["events_eq"]))
     if _is_sims(rec):
         o = rec["obs"]
         return "(CSim (mkRoute %s %s %s))" % (_b(o["hash_eq"]), _b(o["results_eq"] and not o.get("panic")), _b(o["events_eq"]))
@@ -122,6 +174,11 @@ def _evm_case(rec):
 
 def _in_flight(rec):
     i, o = rec["input"], rec["obs"]
+    if _is_slices(rec):
+        return False
+    if _is_infl(rec):
+        # a simulation succeeded INSIDE a DeliverTx of block B that returned code 0
+        return o["served"] > 0 and o["sim_ok"] > 0 and any(c == 0 for c in o["codes"][len(i["pre"]):])
     if _is_sims(rec):
         # a multi-message simulation ran to completion and the later block delivered something
         return any(r == "ok" and len(t) >= 2 for r, t in zip(o["sim_res"], i["sims"])) and len(i["post"]) > 0
@@ -139,6 +196,17 @@ def nontrivial(rec):
 
 def classify(rec):
     i, o = rec["input"], rec["obs"]
+    if _is_slices(rec):
+        return ["driver:inflight", "slices-observed=%d" % len(o.get("slices") or []),
+                "slices-with-spare-capacity=%d" % sum(1 for e in o.get("slices") or [] if e["spare"] > 0)]
+    if _is_infl(rec):
+        shape = "dense" if i["every"] == 1 and i["max"] > 1 else ("single" if i["max"] == 1 else "sparse")
+        ks = ["driver:inflight", "deliver:" + "|".join("+".join(m["kind"] for m in tx) for tx in i["deliver"]),
+              "simulated:" + "|".join("+".join(m["kind"] for m in tx) for tx in i["sims"]), "yield:" + shape,
+              "served:" + ("0" if o["served"] == 0 else "1" if o["served"] == 1 else "2-20" if o["served"] <= 20 else ">20"),
+              "interference:" + _effect(rec)]
+        ks += ["sim:ok"] * (1 if o["sim_ok"] else 0) + ["sim:err"] * (1 if o["sim_err"] else 0) + ["code:%d" % c for c in o["codes"]]
+        return ks
     if _is_sims(rec):
         ks = ["driver:sims", "chain:" + "+".join(m["kind"] for m in i["chain"]), "sims=%d" % len(i["sims"]),
               "sim_at:" + ("in-block" if i["sim_in"] else "between-blocks"), "interference:" + _effect(rec)]
@@ -162,6 +230,22 @@ def describe(rec):
 
 def _effect(rec):
     o = rec["obs"]
+    if _is_slices(rec):
+        return "none"
+    if _is_infl(rec):
+        if o.get("blocked"):
+            return "request-blocked-on-store-mutex-of-block-execution"
+        if o.get("panic"):
+            return "block-execution-panicked"
+        if o["codes"] != o["codes_w"]:
+            return "deliver-tx-code-changed"
+        if not o["meta_eq"]:
+            return "deployed-erc20-metadata-changed"
+        if not o["results_eq"]:
+            return "deliver-tx-result-changed"
+        if not o["hash_eq"]:
+            return "app-hash-differs"
+        return "none" if o["events_eq"] else "tx-events-differ"
     if _is_sims(rec):
         if o.get("panic"):
             return "block-execution-panicked"
@@ -198,6 +282,13 @@ def signature(rec):
     """Identifies a finding: where the request ran, which requests could reach the shared StateDB pointer (entry point :
     operation; all requests of the case when none of them performs a unibi bank operation), what changed."""
     i = rec["input"]
+    if _is_slices(rec):
+        return {"kind": "shared-slices", "query": "-", "effect": "none"}
+    if _is_infl(rec):
+        simmed = sorted({m["kind"] for t in i["sims"] for m in t})
+        delivered = sorted({m["kind"] for t in i["deliver"] for m in t})
+        return {"kind": "tx-simulation-inside-DeliverTx[" + ",".join(delivered) + "]", "query": "Simulate:[" + ",".join(simmed) + "]",
+                "effect": _effect(rec)}
     if _is_sims(rec):
         simmed = sorted({i["chain"][j]["kind"] for t in i["sims"] for j in t if 0 <= j < len(i["chain"])})
         return {"kind": "tx-simulation-" + ("in-block" if i["sim_in"] else "between-blocks"), "query": "Simulate:[" + ",".join(simmed) + "]",
@@ -214,6 +305,10 @@ def signature(rec):
 
 
 def input_size(inp):
+    if inp.get("driver") == "slices":
+        return 1
+    if inp.get("driver") == "inflight":
+        return 10 * sum(len(t) for t in inp["sims"] + inp["deliver"] + inp["pre"]) + len(inp["sims"]) + (0 if inp["max"] == 1 else 5)
     if inp.get("driver") == "sims":
         return 10 * sum(len(t) for t in inp["sims"]) + 5 * sum(len(t) for t in inp["pre"] + inp["post"]) + len(inp["sims"])
     if inp.get("driver") == "routes":
@@ -223,6 +318,19 @@ def input_size(inp):
 
 
 def shrink_candidates(inp):
+    if inp.get("driver") == "slices":
+        return []
+    if inp.get("driver") == "inflight":
+        out = []
+        for f in ("sims", "deliver", "pre"):
+            l = inp[f]
+            for n in range(len(l)):
+                if len(l) > 1 or f == "pre":
+                    out.append(dict(inp, **{f: l[:n] + l[n + 1:]}))           # drop a tx
+                for k in range(len(l[n])):
+                    if len(l[n]) > 1:
+                        out.append(dict(inp, **{f: l[:n] + [l[n][:k] + l[n][k + 1:]] + l[n + 1:]}))  # drop a message
+        return out
     if inp.get("driver") == "sims":
         out = []
         for f in ("sims", "pre", "post"):
@@ -307,7 +415,12 @@ MANIFEST = {
                  "in a hand-maintained table (immutable after construction / store-backed / registry / per-call "
                  "/ the one guarded pointer) — a new cache, flag or counter breaks it; C09_no_unreviewed_aliasing: every in-place "
                  "big-number operation on a receiver that is not syntactically fresh and every function returning a package-level "
-                 "variable itself is a reviewed site. For the model "
+                 "variable itself is a reviewed site; C09_shared_buffers_justified: every append / index write / copy whose base is a "
+                 "package-level slice (x/evm/embeds byte codes included) or a singleton field is a reviewed append site whose base is "
+                 "materialised by an exact-capacity allocator (so the append reallocates instead of writing into the shared backing "
+                 "array), which selects the buffer model Exact, for which C09_current_tree_buffers proves the full statement over all "
+                 "schedules (C09_buffers_noninterference_refuted: with spare capacity a simulated MsgCreateFunToken between append and "
+                 "constructor changes the committed ERC20; C09_buffers_copy_first). For the model "
                  "these facts select, C09_current_tree proves the FULL statement: for all request scripts, stores and schedules, the "
                  "pointer and the whole deliver thread (committed ledger, written accounts, tx failure, result/event log) equal the "
                  "run of DeliverTx alone, and (C09_current_tree_sequential) the complete sequential execution — by induction over "
@@ -322,7 +435,10 @@ MANIFEST = {
                  "by reflection) around blocks that end day epochs (inflation mints), oracle vote periods and a slash window and "
                  "compares app hashes, supply and block events; a third driver SIMULATES single- and multi-message Cosmos txs (bank, "
                  "tokenfactory, FunToken msgs; never committed) between the blocks that deliver sub-sequences of the same messages "
-                 "and compares every DeliverTx response and app hash (C09_branch_isolation_generic: with per-branch steps of ANY "
+                 "and compares every DeliverTx response and app hash; a fourth driver serves simulations of the SAME message kinds "
+                 "(MsgCreateFunToken, MsgConvertCoinToEvm, contract creation; other coins / arguments) INSIDE DeliverTx at the store-read "
+                 "yield points of the node's store tracer and compares responses, app hashes and the metadata of the deployed ERC20s, and "
+                 "observes cap-len of every shared byte slice (C09_branch_isolation_generic: with per-branch steps of ANY "
                  "kind the deliver branch evolves as alone under every schedule); Pb (sound w.r.t. P) must hold on every observed pair."),
         "design_ref": "DESIGN.md §5 C09",
     },
@@ -341,5 +457,5 @@ MANIFEST = {
                    "change might add is caught only if block execution observes it (the init code stores COINBASE, TIMESTAMP, NUMBER, "
                    "PREVRANDAO, GASLIMIT, CHAINID, BASEFEE; the scenario block has a proposer, its neighbours none). Fix 509f604 "
                    "came out of this check (findings: EthCall/EstimateGas/TraceTx bankMsgSend and any fee-paying Simulate)."),
-    "technique": "Coq proof (induction over schedules of an interleaving model; refutation of the unguarded model by vm_compute) + generated pointer-site facts selecting the model + differential replicas with requests injected at yield points",
+    "technique": "Coq proof (induction over schedules of two interleaving models: shared StateDB pointer, shared byte slices; refutation of the unguarded / spare-capacity models by vm_compute) + generated pointer-site and buffer-site facts selecting the models + differential replicas with requests injected at yield points (test precompile, store tracer)",
 }
